@@ -149,12 +149,14 @@ impl Run {
             "byOwner": by_owner,
             "bySpender": by_spender,
             "migrated": self.migrated,
+            "mk": self.observe_marketing(),
         })
     }
 
     fn zero_obs(&self) -> Value {
         json!({"supply":0,"accounts":[],"bal":{"a1":0,"a2":0,"a3":0,"k1":0},"minter":{"addr":"none","cap":-1},
-               "allow":[],"byOwner":[],"bySpender":[],"migrated":true})
+               "allow":[],"byOwner":[],"bySpender":[],"migrated":true,
+               "mk":{"project":"none","description":"none","marketing":"none","logo":"none","mime":"none"}})
     }
 
     /// Start a run: build a fresh world, instantiate the token from cfg. Emits the reset event.
@@ -193,7 +195,7 @@ impl Run {
             decimals: 6,
             initial_balances: init,
             mint,
-            marketing: None,
+            marketing: Self::marketing_of(cfg, &w),
         };
         let admin = creator.to_string();
         let r = call(&mut w, |w| {
@@ -203,6 +205,9 @@ impl Run {
         });
         let mut cfgv = cfg.clone();
         cfgv["maxAmt"] = json!(sc.max_amt());
+        let mkt = cfg.get("marketing").cloned().unwrap_or(Value::Null);
+        cfgv["mkt"] = if mkt.is_null() { json!({"on":false,"addr":"none","logo":"none"}) } else { json!({"on":true,"addr":mkt["addr"],"logo":mkt["logo"]}) };
+        cfgv["marketing"] = json!(0);
         let mut run = Run { w, sc, token: None, code_id, migrated: !legacy };
         if !r.ok {
             out.emit(&json!({"act":"reset","sys":"cw20","run":run_no,"cfg":cfgv,"ok":false,"panic":r.panic,"err":r.err,
@@ -250,6 +255,45 @@ impl Run {
         out.emit(&json!({"act":"reset","sys":"cw20","run":run_no,"cfg":cfgv,"ok":true,"panic":false,"err":"",
             "now":run.w.now(),"out":[],"anom":anom,"obs":obs}));
         Some(run)
+    }
+
+    fn logo_of(kind: &str) -> Option<cw20::Logo> {
+        let png = |n: usize| -> Binary { let mut v = vec![0x89u8, b'P', b'N', b'G', 0x0d, 0x0a, 0x1a, 0x0a]; v.resize(n, 7); Binary::from(v) };
+        match kind {
+            "url" => Some(cw20::Logo::Url("https://example.org/logo".into())),
+            "png" => Some(cw20::Logo::Embedded(cw20::EmbeddedLogo::Png(png(64)))),
+            "bigpng" => Some(cw20::Logo::Embedded(cw20::EmbeddedLogo::Png(png(5 * 1024 + 1)))),
+            "maxpng" => Some(cw20::Logo::Embedded(cw20::EmbeddedLogo::Png(png(5 * 1024)))),
+            "badpng" => Some(cw20::Logo::Embedded(cw20::EmbeddedLogo::Png(Binary::from(vec![1u8; 32])))),
+            "svg" => Some(cw20::Logo::Embedded(cw20::EmbeddedLogo::Svg(Binary::from(b"<?xml version=\"1.0\"?><svg></svg>".to_vec())))),
+            "badsvg" => Some(cw20::Logo::Embedded(cw20::EmbeddedLogo::Svg(Binary::from(b"<svg></svg>".to_vec())))),
+            _ => None,
+        }
+    }
+    fn marketing_of(cfg: &Value, w: &World) -> Option<cw20_base::msg::InstantiateMarketingInfo> {
+        let m = cfg.get("marketing")?;
+        if m.is_null() {
+            return None;
+        }
+        let addr = m["addr"].as_str().unwrap_or("none");
+        Some(cw20_base::msg::InstantiateMarketingInfo {
+            project: Some("proj0".into()),
+            description: None,
+            marketing: if addr == "none" { None } else { Some(w.addr(addr).to_string()) },
+            logo: Self::logo_of(m["logo"].as_str().unwrap_or("none")),
+        })
+    }
+    fn observe_marketing(&self) -> Value {
+        let t = self.tok();
+        let mi: cw20::MarketingInfoResponse = self.w.smart(&t, &QueryMsg::MarketingInfo {}).unwrap();
+        let dl: Result<cw20::DownloadLogoResponse, _> = self.w.smart(&t, &QueryMsg::DownloadLogo {});
+        json!({
+            "project": mi.project.unwrap_or_else(|| "none".into()),
+            "description": mi.description.unwrap_or_else(|| "none".into()),
+            "marketing": mi.marketing.map(|a| self.w.name_of(a.as_str())).unwrap_or_else(|| "none".into()),
+            "logo": match mi.logo { None => "none", Some(cw20::LogoInfo::Url(_)) => "url", Some(cw20::LogoInfo::Embedded) => "embedded" },
+            "mime": dl.map(|d| d.mime_type).unwrap_or_else(|_| "none".into()),
+        })
     }
 
     fn exp_arg(&self, a: &Value) -> Option<cw_utils::Expiration> {
@@ -302,6 +346,12 @@ impl Run {
                         let nm = s(&args, "new");
                         Cw20ExecuteMsg::UpdateMinter { new_minter: if nm == "none" { None } else { Some(self.w.addr(&nm).to_string()) } }
                     }
+                    "update_marketing" => {
+                        let f = |k: &str| -> Option<String> { match args[k].as_str() { Some("keep") | None => None, Some("clear") => Some("".into()), Some(x) => Some(x.to_string()) } };
+                        let m = match args["marketing"].as_str() { Some("keep") | None => None, Some("clear") => Some("".to_string()), Some(x) => Some(self.w.addr(x).to_string()) };
+                        Cw20ExecuteMsg::UpdateMarketing { project: f("project"), description: f("description"), marketing: m }
+                    }
+                    "upload_logo" => Cw20ExecuteMsg::UploadLogo(Self::logo_of(&s(&args, "kind")).expect("logo kind")),
                     other => panic!("cw20: unknown action {other}"),
                 };
                 let sender = self.w.addr(&by);
@@ -394,7 +444,8 @@ fn rand_cfg(rng: &mut Rng) -> Value {
             grants.push(json!({"o":o,"s":sp,"amt":rng.range(0,10),"exp":rand_exp(rng, 0, 0, true)}));
         }
     }
-    json!({"scale":scale,"init":init,"minter":minter,"cap":cap,"legacy":legacy,"legacyGrants":grants})
+    let marketing = if rng.chance(1, 2) { json!({"addr": rng.pick(&["a1", "a2", "none"]), "logo": rng.pick(&["none", "url", "png", "svg"])}) } else { Value::Null };
+    json!({"scale":scale,"init":init,"minter":minter,"cap":cap,"legacy":legacy,"legacyGrants":grants,"marketing":marketing})
 }
 
 fn rand_exp(rng: &mut Rng, h: u64, t: u64, concrete: bool) -> Value {
@@ -481,6 +532,14 @@ pub fn random_run(rng: &mut Rng, run_no: u64, len: usize, out: &mut Out) {
                 let who = if rng.chance(2, 3) && obs["minter"]["addr"] != "none" { obs["minter"]["addr"].as_str().unwrap().to_string() } else { by.clone() };
                 let new = if rng.chance(1, 6) { "none".to_string() } else { rng.pick(&USERS).to_string() };
                 json!({"act":"update_minter","by":who,"args":{"new":new}})
+            }
+            90..=94 => {
+                let who = if rng.chance(3, 4) && obs["mk"]["marketing"] != "none" { obs["mk"]["marketing"].as_str().unwrap().to_string() } else { by.clone() };
+                if rng.chance(1, 2) {
+                    json!({"act":"upload_logo","by":who,"args":{"kind":rng.pick(&["url","png","svg","bigpng","maxpng","badpng","badsvg"])}})
+                } else {
+                    json!({"act":"update_marketing","by":who,"args":{"project":rng.pick(&["keep","clear","projA","projB"]),"description":rng.pick(&["keep","clear","descA"]),"marketing":rng.pick(&["keep","keep","clear","a1","a2","a3"])}})
+                }
             }
             _ => json!({"act":"advance","by":"env","args":{"dh":rng.range(0,2),"dt":rng.range(0,12)}}),
         };
